@@ -48,6 +48,11 @@ type mthread struct {
 	pending *pendingOp
 	done    bool
 	started bool
+	// arrived: the thread's pending operation is visible to the others. Arrival is a transition of
+	// its own only while some pending operation is a select with a default case (a non-blocking
+	// operation observes whether its partner is already waiting); otherwise arrival order is
+	// irrelevant and every parked thread counts as arrived.
+	arrived bool
 }
 
 type transition struct {
@@ -153,8 +158,13 @@ func (s *Sched) enabled() []transition {
 	var out []transition
 	var parked []*mthread
 	for _, t := range s.threads {
-		if !t.done && t.pending != nil {
+		if !t.done && t.pending != nil && t.arrived {
 			parked = append(parked, t)
+		}
+	}
+	for _, t := range s.threads {
+		if !t.done && t.pending != nil && !t.arrived {
+			out = append(out, transition{kind: "arrive", t: t, label: t.name + ": reaches its next channel operation"})
 		}
 	}
 	for _, t := range parked {
@@ -220,6 +230,7 @@ func (s *Sched) enabled() []transition {
 func (s *Sched) runThread(t *mthread) {
 	s.cur = t
 	t.pending = nil
+	t.arrived = false
 	t.resume <- struct{}{}
 	<-s.yield
 	s.cur = nil
@@ -228,7 +239,29 @@ func (s *Sched) runThread(t *mthread) {
 // Run executes the registered threads to completion, deadlock or horizon.
 func (s *Sched) Run() {
 	verifshim.SendHook = func(ch interface{}, v interface{}) { s.Send(ch, v) }
-	defer func() { verifshim.SendHook = nil }()
+	verifshim.RecvHook = func(ch interface{}) (interface{}, bool) { return s.Recv(ch) }
+	verifshim.SelectHook = func(hasDefault bool, cases []verifshim.SelCase) verifshim.SelResult {
+		op := &pendingOp{hasDefault: hasDefault}
+		for _, c := range cases {
+			op.cases = append(op.cases, selCase{Send: c.Send, Ch: c.Ch, Val: c.Val})
+		}
+		s.park(op)
+		return verifshim.SelResult{Index: op.chosen, Value: op.val, Ok: op.ok}
+	}
+	verifshim.CloseHook = func(ch interface{}) {
+		m := s.chanOf(ch)
+		if m.closed {
+			panic("close of closed channel")
+		}
+		m.closed = true
+		s.Trace = append(s.Trace, s.cur.name+": close("+m.name+")")
+	}
+	verifshim.GoHook = func(fn func()) {
+		s.Go(fmt.Sprintf("goroutine-%d", len(s.threads)), fn) // started by the scheduler loop
+	}
+	defer func() {
+		verifshim.SendHook, verifshim.RecvHook, verifshim.SelectHook, verifshim.CloseHook, verifshim.GoHook = nil, nil, nil, nil, nil
+	}()
 	// start: run every thread up to its first operation, in id order (initial local steps commute)
 	for i := 0; i < len(s.threads); i++ {
 		t := s.threads[i]
@@ -236,6 +269,12 @@ func (s *Sched) Run() {
 		s.runThread(t)
 	}
 	for {
+		for i := 0; i < len(s.threads); i++ { // threads created by `go` statements since the last step
+			if !s.threads[i].started {
+				s.threads[i].started = true
+				s.runThread(s.threads[i])
+			}
+		}
 		live := 0
 		for _, t := range s.threads {
 			if !t.done {
@@ -244,6 +283,19 @@ func (s *Sched) Run() {
 		}
 		if live == 0 {
 			break
+		}
+		anyDefault := false
+		for _, t := range s.threads {
+			if !t.done && t.pending != nil && t.pending.hasDefault {
+				anyDefault = true
+			}
+		}
+		if !anyDefault {
+			for _, t := range s.threads {
+				if !t.done && t.pending != nil {
+					t.arrived = true
+				}
+			}
 		}
 		en := s.enabled()
 		if len(en) == 0 {
@@ -258,6 +310,8 @@ func (s *Sched) Run() {
 		tr := en[s.x.Choose(len(en), "sched")]
 		s.Trace = append(s.Trace, tr.label)
 		switch tr.kind {
+		case "arrive":
+			tr.t.arrived = true
 		case "rendezvous":
 			so, ro := tr.sender.pending, tr.recv.pending
 			so.chosen, so.ok = tr.sCase, true
